@@ -45,10 +45,45 @@ type plan struct {
 	sizes  []int
 	replay uint64
 	leader bool
+	// restartAt > 0: after entry restartAt the replica takes a checkpoint and restarts from it
+	// (engine closed and reopened from the checkpoint, every cache gone), then goes on with the log
+	restartAt int
 }
 
 func (p plan) String() string {
-	return fmt.Sprintf("{engine=%s batches=%v replayUpTo=%d leader=%v}", p.engine, p.sizes, p.replay, p.leader)
+	return fmt.Sprintf("{engine=%s batches=%v replayUpTo=%d leader=%v restartFromCheckpointAfterEntry=%d}", p.engine, p.sizes, p.replay, p.leader, p.restartAt)
+}
+
+// splitSizes cuts the apply batches at entry r.
+func splitSizes(sizes []int, n, r int) (a, b []int) {
+	done := 0
+	for _, k := range sizes {
+		if done >= n {
+			break
+		}
+		if k <= 0 || done+k > n {
+			k = n - done
+		}
+		switch {
+		case done+k <= r:
+			a = append(a, k)
+		case done >= r:
+			b = append(b, k)
+		default:
+			a = append(a, r-done)
+			b = append(b, done+k-r)
+		}
+		done += k
+	}
+	if done < n { // remaining entries form one last batch
+		if done < r {
+			a = append(a, r-done)
+			b = append(b, n-r)
+		} else {
+			b = append(b, n-done)
+		}
+	}
+	return a, b
 }
 
 // extra write commands outside the C08 grammar
@@ -58,6 +93,13 @@ func extraCommand(t *rapid.T, p *gen.Pool) []string {
 	v := func() string { return rapid.SampledFrom(p.Values).Draw(t, "xv") }
 	switch rapid.IntRange(0, 11).Draw(t, "extra") {
 	case 0:
+		if known.Active(findingHLLKVMix) {
+			// exclusion by construction: HyperLogLog writes go to names no KV command touches
+			if p.Excluded != nil {
+				*p.Excluded++
+			}
+			return []string{"pfadd", k + hllSuffix, m(), m()}
+		}
 		return []string{"pfadd", k, m(), m()}
 	case 1:
 		return []string{"setbit", k, rapid.SampledFrom([]string{"0", "7", "8", "100", "8191", "8192"}).Draw(t, "bitoff"), rapid.SampledFrom([]string{"0", "1"}).Draw(t, "bit")}
@@ -128,8 +170,11 @@ func isBatchable(name string) bool {
 	return false
 }
 
+const findingHLLKVMix = "C07-kv-commands-on-hll-key-depend-on-cache-flush"
+const hllSuffix = "-pf"
+
 func dumpCmds(key string) [][]string {
-	return [][]string{{"get", key}, {"exists", key}, {"ttl", key}, {"hgetall", key}, {"hlen", key}, {"httl", key}, {"lrange", key, "0", "-1"}, {"lttl", key},
+	return [][]string{{"pfcount", key + hllSuffix}, {"get", key}, {"exists", key}, {"ttl", key}, {"hgetall", key}, {"hlen", key}, {"httl", key}, {"lrange", key, "0", "-1"}, {"lttl", key},
 		{"smembers", key}, {"scard", key}, {"sttl", key}, {"zrange", key, "0", "-1", "withscores"}, {"zcard", key}, {"zttl", key},
 		{"pfcount", key}, {"bitcount", key}, {"bttl", key}, {"json.get", key, "."}, {"strlen", key},
 		{"hkeyexist", key}, {"lkeyexist", key}, {"skeyexist", key}, {"zkeyexist", key}, {"bkeyexist", key}}
@@ -157,7 +202,36 @@ func execPlan(t *rapid.T, policy string, log []logEntry, anchor int64, p plan, k
 			}
 		}
 	}
-	part.ApplyLog(ents, append([]int(nil), p.sizes...), p.replay)
+	if p.restartAt > 0 && p.restartAt < len(ents) {
+		r := p.restartAt
+		a, b := splitSizes(p.sizes, len(ents), r)
+		part.ApplyLog(ents[:r], a, p.replay)
+		db := part.Store().RockDB
+		bi := db.Backup(1, uint64(r))
+		for try := 0; bi == nil && try < 400; try++ {
+			time.Sleep(5 * time.Millisecond)
+			bi = db.Backup(1, uint64(r))
+		}
+		if bi == nil {
+			t.Fatalf("HARNESS: the backup goroutine never accepted the request")
+		}
+		if _, err := bi.GetResult(); err != nil {
+			t.Fatalf("checkpoint after entry %d failed: %v", r, err)
+		}
+		var rerr error
+		for try := 0; try < 200; try++ {
+			if rerr = db.Restore(1, uint64(r)); rerr == nil {
+				break
+			}
+			time.Sleep(5 * time.Millisecond)
+		}
+		if rerr != nil {
+			t.Fatalf("restart from the checkpoint after entry %d failed: %v", r, rerr)
+		}
+		part.ApplyLog(ents[r:], b, p.replay)
+	} else {
+		part.ApplyLog(ents, append([]int(nil), p.sizes...), p.replay)
+	}
 	res := result{replies: map[uint64]string{}}
 	for id, w := range waiters {
 		res.replies[id] = simkv.ReplyOf(w).String()
@@ -223,6 +297,9 @@ func drawPlan(t *rapid.T, n int, label string, engines []string) plan {
 	if rapid.Bool().Draw(t, label+"replaying") {
 		p.replay = uint64(rapid.IntRange(1, n).Draw(t, label+"replaycut"))
 	}
+	if n > 1 && rapid.IntRange(0, 3).Draw(t, label+"restart") == 0 {
+		p.restartAt = rapid.IntRange(1, n-1).Draw(t, label+"restartat")
+	}
 	return p
 }
 
@@ -238,6 +315,9 @@ func planDiff(a, b plan) int {
 		d++
 	}
 	if a.leader != b.leader {
+		d++
+	}
+	if a.restartAt != b.restartAt {
 		d++
 	}
 	return d
@@ -490,4 +570,41 @@ func TestDeterminismMemPebble(t *testing.T) {
 
 func TestDeterminismAllEngines(t *testing.T) {
 	rapid.Check(t, func(t *rapid.T) { runCase(t, []string{"mem", "pebble", "rocksdb"}, "all_engines") })
+}
+
+// A HyperLogLog lives in the KV keyspace behind a write-back cache that is flushed by every
+// backup and by eviction - moments that each replica chooses for itself. KV commands on such a
+// key read the STORED bytes: before the flush the key does not exist for them, after it it
+// holds the raw sketch. The same log therefore gives different replies and different data on a
+// replica that took a checkpoint (or restarted) in between and one that did not.
+func TestKnownKVCommandsOnHLLKey(t *testing.T) {
+	known.Probe(t, findingHLLKVMix, func() (bool, string) {
+		run := func(flush bool) (string, string) {
+			sim, err := simkv.New(simkv.Options{Engine: "pebble"})
+			if err != nil {
+				return "HARNESS: " + err.Error(), ""
+			}
+			defer sim.Close()
+			sim.Do("pfadd", "default:t:k", "a", "b")
+			if flush {
+				db := sim.Parts[0].Store().RockDB
+				bi := db.Backup(1, 1)
+				for try := 0; bi == nil && try < 400; try++ {
+					time.Sleep(5 * time.Millisecond)
+					bi = db.Backup(1, 1)
+				}
+				if bi != nil {
+					bi.GetResult()
+				}
+			}
+			r := sim.Do("setrange", "default:t:k", "3", "0").String()
+			return r, sim.Do("strlen", "default:t:k").String()
+		}
+		r1, l1 := run(false)
+		r2, l2 := run(true)
+		if r1 != r2 || l1 != l2 {
+			return true, fmt.Sprintf("PFADD k a b; SETRANGE k 3 0 -> %s (STRLEN %s) on a replica that never flushed its HyperLogLog cache, %s (STRLEN %s) on one that took a checkpoint in between", r1, l1, r2, l2)
+		}
+		return false, ""
+	})
 }
